@@ -7,6 +7,7 @@ import Iota.Tie.Expect
 import Iota.Tie.Bech32
 import Iota.Tie.C14
 import Iota.Model.Address
+import Iota.Proofs.Vectors.Hash
 
 namespace Iota.Tie.C19
 open Iota
